@@ -214,7 +214,7 @@ def run(ctx):
     if drv is None or sem_drv is None:
         return ctx.finish("proof")
     rng = ctx.sub_rng("programs")
-    nprog = ctx.budget(55, 1500)
+    nprog = ctx.budget(45, 1500)
     if ctx.replay_in:
         import json
         rp = json.load(open(ctx.replay_in))["replay"]
@@ -222,7 +222,7 @@ def run(ctx):
     else:
         progs = [gen(rng) for _ in range(nprog)]
     sems = semcheck.spec_batch(sem_drv, progs)
-    jobs = [(spine.to_src(P), ctx.budget(1 << 11, 1 << 13), ctx.budget(10, 60)) for P in progs]
+    jobs = [(spine.to_src(P), ctx.budget(1 << 11, 1 << 13), ctx.budget(6, 60)) for P in progs]
     results = pmap(work, jobs, chunksize=1)
     lines, meta = [], []
     nshrunk = [0]
